@@ -36,6 +36,20 @@ theorem recipients_ordered (w : World) (j fn : Nat) :
     (recipients w j fn).Nodup ∧ (recipients w j fn).Pairwise (· < ·) :=
   ⟨recipients_nodup w j fn, recipients_sorted w j fn⟩
 
+/-- number of `handle_data_msg` calls for transceiver `k` in a forwarding step (the multiplicity of
+`k` in the list `forward_calls` folds over): 1 for a recipient, 0 for everybody else -/
+theorem forward_recipients (w : World) (j fn k : Nat) :
+    (recipients w j fn).count k =
+      if k < w.trxs.length ∧ isRecipient w j fn k = true then 1 else 0 := by
+  have hnd := recipients_nodup w j fn
+  by_cases hm : k ∈ recipients w j fn
+  · rw [if_pos ((mem_recipients w j fn k).1 hm)]
+    have h1 : 0 < (recipients w j fn).count k := List.count_pos_iff.2 hm
+    have h2 : (recipients w j fn).count k ≤ 1 := List.nodup_iff_count.1 hnd k
+    omega
+  · rw [if_neg (fun h => hm ((mem_recipients w j fn k).2 h))]
+    exact List.count_eq_zero.2 hm
+
 /-- `forward_msg` calls `handle_data_msg` exactly once for each member of `Spec.recipients`, in
 list order, and for no other transceiver: it IS the fold of `handleDataMsg` over that list, with
 the world threaded through (`handleSeq`); the message handed on has its burst stripped when the
